@@ -347,9 +347,18 @@ class ExcelOpxWrapper(ExcelWrapper):
 
             if address.is_unbounded_range:
                 # bound the address range to the data in the spreadsheet
-                address = address & AddressRange(
-                    (1, 1, *self.max_col_row(sheet.title)),
-                    sheet=sheet.title)
+                max_col, max_row = self.max_col_row(sheet.title)
+                if (max_col, max_row) == (1, 1):
+                    used = AddressCell((1, 1, 1, 1), sheet=sheet.title)
+                else:
+                    used = AddressRange(
+                        (1, 1, max_col, max_row), sheet=sheet.title)
+                bounded = address & used
+                if not is_address(bounded):
+                    # nothing of the range is in use, keep its first cell
+                    col, row = address.start.col_idx or 1, address.start.row or 1
+                    bounded = AddressCell((col, row, col, row), sheet=sheet.title)
+                address = bounded
 
             cells = sheet[address.coordinate]
             cells_dataonly = sheet_dataonly[address.coordinate]
